@@ -170,7 +170,7 @@ pub fn eval_from_bytes_bitcoin(bytes: &[u8], version_id: u8) -> EvaluatedScript 
         EvaluatedScript::new(address, ScriptPattern::Pay2Taproot)
     } else if script.is_witness_program() {
         EvaluatedScript::new(address, ScriptPattern::WitnessProgram)
-    } else if script.is_multisig() && is_pushnum(bytes[bytes.len() - 2]) {
+    } else if is_multisig(script) {
         EvaluatedScript::new(address, ScriptPattern::Pay2MultiSig)
     } else {
         EvaluatedScript::new(address, ScriptPattern::NotRecognised)
@@ -195,6 +195,15 @@ fn p2pk_to_string(script: &Script, network: Network) -> Option<String> {
         network,
     );
     Some(address.to_string())
+}
+
+/// Checks for `OP_m <n keys> OP_n OP_CHECKMULTISIG`, which has at most 16 keys and thus 19 instructions.
+/// `Script::is_multisig()` counts the keys in an `u8`, which overflows for scripts with more than 255 pushes.
+fn is_multisig(script: &Script) -> bool {
+    let bytes = script.as_bytes();
+    script.instructions().take(20).count() <= 19
+        && script.is_multisig()
+        && is_pushnum(bytes[bytes.len() - 2])
 }
 
 /// `Script::is_multisig()` does not insist on the number of public keys in front of
